@@ -35,6 +35,8 @@ func main() {
 }
 
 // govc unit -pkgs ./a,./b -fn 'pkgpath-suffix::Key' [-dump file] [-v]
+var dumpN int
+
 func cmdUnit(args []string) int {
 	fs := flag.NewFlagSet("unit", flag.ExitOnError)
 	pkgs := fs.String("pkgs", "", "comma separated package patterns (relative to the module)")
@@ -82,10 +84,12 @@ func cmdUnit(args []string) int {
 				}
 				if *dump != "" && (*match == "" || strings.Contains(o.Name, *match)) {
 					os.MkdirAll(*dump, 0o755)
-					f := fmt.Sprintf("%s/%s.smt2", *dump, sanitize(o.Name))
-					if len(f) > 200 {
-						f = f[:200] + ".smt2"
+					nm := sanitize(o.Name)
+					if len(nm) > 120 {
+						nm = nm[:120]
 					}
+					dumpN++
+					f := fmt.Sprintf("%s/%03d_%s.smt2", *dump, dumpN, nm)
 					os.WriteFile(f, []byte(res.unit.script(o.obl, res.unit.finalActive)+"(check-sat)\n(get-model)\n"), 0o644)
 				}
 			}
